@@ -1,67 +1,74 @@
 #!/venv/bin/python
-"""tools/keep_seed.py <worktree> <seed dir> <property id> <name> [--tier quick] [--needs "..."]
-Confirms a seeded change myself (demo fails with / passes without, pinned suite passes with it), runs the property's
-check against it and stores it under /verif/seeded/<name>/ with meta.json. Exit 0 = confirmed and caught."""
-import argparse, json, os, shutil, subprocess, sys, time
+"""tools/keep_seed.py <seed dir> <property id> <name> [--tier quick] [--also C20,...] [--env KEY=VAL]
+
+Runs the property's check (and optionally others) against a scratch worktree of the CURRENT /repo HEAD with the seeded
+patch applied, and stores the seeded change under /verif/seeded/<name>/ (patch.diff, demo.py, notes.md, meta.json).
+The demonstration (demo passes without / fails with the change) and the pinned-suite confirmation are done by
+tools/seed_baselines.sh (sequentially) and read from seeded/<name>/{demo.txt,baseline.txt}.
+Exit 0 = caught by at least one check."""
+import argparse, json, os, shutil, subprocess, sys, tempfile, time
+
 ap = argparse.ArgumentParser()
-ap.add_argument("wt"); ap.add_argument("sd"); ap.add_argument("prop"); ap.add_argument("name")
-ap.add_argument("--tier", default="quick"); ap.add_argument("--needs", default=""); ap.add_argument("--skip-baseline", action="store_true")
-ap.add_argument("--also", default="", help="comma separated other check ids to run too")
-ap.add_argument("--env", action="append", default=[], help="KEY=VAL passed to the check (e.g. VERIF_ONLY=uc7-long)")
+ap.add_argument("sd"); ap.add_argument("prop"); ap.add_argument("name")
+ap.add_argument("--tier", default="quick"); ap.add_argument("--also", default="")
+ap.add_argument("--env", action="append", default=[])
 a = ap.parse_args()
-wt, sd = os.path.abspath(a.wt), os.path.abspath(a.sd)
-def sh(cmd, cwd=None, env=None):
-    p = subprocess.run(cmd, cwd=cwd, env=env, shell=isinstance(cmd, str), stdout=subprocess.PIPE, stderr=subprocess.STDOUT, text=True)
-    return p.returncode, p.stdout
-sh("git checkout -q -- .", cwd=wt)
-d0, _ = sh(["/venv/bin/python", "-W", "ignore", os.path.join(sd, "demo.py")])
-rc, out = sh(["git", "apply", os.path.join(sd, "patch.diff")], cwd=wt)
-if rc: print("PATCH DOES NOT APPLY", out); sys.exit(3)
-d1, dout = sh(["/venv/bin/python", "-W", "ignore", os.path.join(sd, "demo.py")])
-base = "skipped"
-if not a.skip_baseline:
-    rc, out = sh(["/venv/bin/python", "/verif/tools/baseline.py", wt])
-    base = out.strip().split("\n")[0]
+sd = os.path.abspath(a.sd)
 dst = os.path.join("/verif/seeded", a.name)
-if a.skip_baseline and os.path.exists(os.path.join(dst, "meta.json")):
-    old = json.load(open(os.path.join(dst, "meta.json")))["confirmed"].get("pinned_suite_with_change", "skipped")
-    if "missing=" in old:
-        base = old  # confirmed in an earlier run of this tool
-sh("git checkout -q -- .", cwd=wt)
-# the checks run against a scratch worktree of the CURRENT /repo HEAD with the patch applied (the author's worktree may be
-# older than later fix: commits, which would confound the attribution)
-import tempfile
+os.makedirs(dst, exist_ok=True)
+
+
+def sh(cmd, cwd=None, env=None):
+    p = subprocess.run(cmd, cwd=cwd, env=env, stdout=subprocess.PIPE, stderr=subprocess.STDOUT, text=True)
+    return p.returncode, p.stdout
+
+
+for f in ("patch.diff", "demo.py", "notes.md"):
+    if os.path.exists(os.path.join(sd, f)):
+        shutil.copy(os.path.join(sd, f), dst)
 cur = tempfile.mkdtemp(prefix="primaite-seed-", dir="/var/tmp")
 os.rmdir(cur)
-rc, out = sh(["git", "-C", "/repo", "worktree", "add", "-q", "--detach", cur, "HEAD"])
-rc, out = sh(["git", "apply", os.path.join(sd, "patch.diff")], cwd=cur)
-if rc:
-    rc, out = sh(["git", "apply", "-3", os.path.join(sd, "patch.diff")], cwd=cur)
-if rc:
-    print("PATCH DOES NOT APPLY TO CURRENT HEAD", out); sh(["git", "-C", "/repo", "worktree", "remove", "--force", cur]); sys.exit(3)
-results = {}
-for cid in [a.prop] + [x for x in a.also.split(",") if x]:
-    env = dict(os.environ, VERIF_REPO=cur)
-    for kv in a.env:
-        k_, v_ = kv.split("=", 1)
-        env[k_] = v_
-    t0 = time.time()
-    rc, out = sh(["./check", cid, a.tier], cwd="/verif", env=env)
-    clauses = sorted({l.strip() for l in out.split("\n") if l.strip().startswith("clause=")})
-    results[cid] = {"exit": rc, "violation_lines": out.count("\nVIOLATION") + out.startswith("VIOLATION"), "clauses": clauses[:8], "wall_s": round(time.time() - t0)}
-sh(["git", "-C", "/repo", "worktree", "remove", "--force", cur])
-# evidence files were rewritten by the runs against the seeded tree: they are regenerated by the next run on /repo
-os.makedirs(dst, exist_ok=True)
-for f in ("patch.diff", "demo.py", "notes.md"):
-    if os.path.exists(os.path.join(sd, f)): shutil.copy(os.path.join(sd, f), dst)
+sh(["git", "-C", "/repo", "worktree", "add", "-q", "--detach", cur, "HEAD"])
+try:
+    rc, out = sh(["git", "apply", os.path.join(sd, "patch.diff")], cwd=cur)
+    if rc:
+        rc, out = sh(["git", "apply", "-3", os.path.join(sd, "patch.diff")], cwd=cur)
+    if rc:
+        print("%s: PATCH DOES NOT APPLY TO CURRENT HEAD: %s" % (a.name, out[:300]))
+        sys.exit(3)
+    results = {}
+    for cid in [a.prop] + [x for x in a.also.split(",") if x]:
+        env = dict(os.environ, VERIF_REPO=cur)
+        for kv in a.env:
+            k_, v_ = kv.split("=", 1)
+            env[k_] = v_
+        t0 = time.time()
+        rc, out = sh(["./check", cid, a.tier], cwd="/verif", env=env)
+        clauses = sorted({l.strip() for l in out.split("\n") if l.strip().startswith("clause=")})
+        results[cid + ":" + a.tier] = {"exit": rc, "violation_lines": sum(1 for l in out.split("\n") if l.startswith("VIOLATION")),
+                                      "clauses": clauses[:8], "wall_s": round(time.time() - t0),
+                                      "cmd": "VERIF_REPO=<scratch worktree of /repo HEAD + patch.diff> %s./check %s %s" % (
+                                          "".join(x + " " for x in a.env), cid, a.tier)}
+finally:
+    sh(["git", "-C", "/repo", "worktree", "remove", "--force", cur])
+meta_p = os.path.join(dst, "meta.json")
+meta = json.load(open(meta_p)) if os.path.exists(meta_p) else {}
 notes = open(os.path.join(sd, "notes.md")).read() if os.path.exists(os.path.join(sd, "notes.md")) else ""
-meta = {"property": a.prop, "name": a.name, "needs_to_manifest": a.needs or notes[:1500],
-        "confirmed": {"demo_exit_without_change": d0, "demo_exit_with_change": d1, "pinned_suite_with_change": base},
-        "checks_run": {k: dict(v, cmd="VERIF_REPO=<scratch worktree with the patch> %s./check %s %s" % ("".join(x + " " for x in a.env), k, a.tier)) for k, v in results.items()},
-        "caught_by": [k for k, v in results.items() if v["exit"] == 1 and v["violation_lines"] > 0],
-        "checked_against": "scratch worktree of /repo HEAD %s + patch.diff" % subprocess.check_output(["git", "-C", "/repo", "log", "-1", "--format=%h"]).decode().strip(),
-        "written_by": "independent sub-agent given only the property text and a scratch worktree"}
-json.dump(meta, open(os.path.join(dst, "meta.json"), "w"), indent=1)
-ok = d0 == 0 and d1 == 1 and (a.skip_baseline or "missing=0" in base)
-print("%s: demo %d/%d baseline[%s] caught_by=%s" % (a.name, d0, d1, base, meta["caught_by"]))
-sys.exit(0 if ok and meta["caught_by"] else 1)
+meta.update({"property": a.prop, "name": a.name, "needs_to_manifest": notes[:1800],
+             "written_by": "independent sub-agent given only the property text and a scratch worktree",
+             "checked_against": "scratch worktree of /repo HEAD %s + patch.diff" % subprocess.check_output(
+                 ["git", "-C", "/repo", "log", "-1", "--format=%h"]).decode().strip()})
+runs = meta.get("checks_run", {})
+runs = {k: v for k, v in runs.items() if ":" in k}
+runs.update(results)
+meta["checks_run"] = runs
+meta["caught_by"] = sorted(k for k, v in runs.items() if v["exit"] == 1 and v["violation_lines"] > 0)
+conf = {}
+for fn, key in (("demo.txt", "demo"), ("baseline.txt", "pinned_suite_with_change")):
+    fp = os.path.join(dst, fn)
+    if os.path.exists(fp):
+        conf[key] = open(fp).read().strip().split("\n")[0]
+meta["confirmed"] = conf or meta.get("confirmed", {})
+json.dump(meta, open(meta_p, "w"), indent=1)
+print("%s: confirmed=%s caught_by=%s" % (a.name, conf, meta["caught_by"]))
+sys.exit(0 if meta["caught_by"] else 1)
